@@ -303,6 +303,32 @@ impl Api {
                     Cell::switch_s(&sel.map(lambda1(move |k: &i64| cv[k.rem_euclid(n) as usize].clone(), cdeps)))
                 }, deps));
                 self.h.insert(x.to_string(), H::S(Cell::switch_s(&outer))); ok() }
+            ["lateswitch", l, trig, s] => { fresh!(l); let (trig, s) = (need!(self.s(trig)), need!(self.s(s)));
+                // a switch built by the handler of another stream's first event, over a constant cell holding `s`: it is `s`
+                // from that very transaction on (whether or not `s` was visited before the handler ran)
+                let log = self.log.clone(); let name = l.to_string(); let ctx = self.ctx.clone();
+                let keep: Arc<Mutex<Vec<Listener>>> = Arc::new(Mutex::new(vec![]));
+                let outer = trig.once().listen(move |_k: &i64| {
+                    let sw = Cell::switch_s(&ctx.new_cell(s.clone()));
+                    let (log, name) = (log.clone(), name.clone());
+                    let li = sw.listen(move |v: &i64| log.lock().unwrap().push((name.clone(), *v)));
+                    keep.lock().unwrap().push(li);
+                });
+                std::mem::forget(outer);
+                self.h.insert(l.to_string(), H::P); ok() }
+            ["lateswitchc", l, trig, c] => { fresh!(l); let (trig, c) = (need!(self.s(trig)), need!(self.c(c)));
+                // the same with `switch_c` over a constant cell holding `c`; every update of the result from that transaction
+                // on is reported (through `updates().listen`, so that the current value is not)
+                let log = self.log.clone(); let name = l.to_string(); let ctx = self.ctx.clone();
+                let keep: Arc<Mutex<Vec<Listener>>> = Arc::new(Mutex::new(vec![]));
+                let outer = trig.once().listen(move |_k: &i64| {
+                    let sw = Cell::switch_c(&ctx.new_cell(c.clone()));
+                    let (log, name) = (log.clone(), name.clone());
+                    let li = sw.updates().listen(move |v: &i64| log.lock().unwrap().push((name.clone(), *v)));
+                    keep.lock().unwrap().push(li);
+                });
+                std::mem::forget(outer);
+                self.h.insert(l.to_string(), H::P); ok() }
             ["leafdrop", l, trig, s, kind] => { fresh!(l); let (trig, s, kind) = (need!(self.s(trig)), need!(self.s(s)), need!(num(kind)));
                 // an unobserved primitive on `s` whose only handle is dropped by the handler of another stream's first event,
                 // possibly while its node is already queued for update in that transaction: nothing may happen
